@@ -109,7 +109,21 @@ def run_item(item):
         for a in affs:
             r = X.expr_simp(a)
             out.append([str(r), canon.ser_expr(r)])
-        return {'lift': out, 'intel': str(i), 'att': i.__str__('att_syntax')}
+        res = {'lift': out, 'intel': str(i), 'att': i.__str__('att_syntax')}
+        # the instruction stepped on a fresh machine: the committed state (which assignment wins when a destination
+        # is named twice, which cells exist) is part of what must not depend on the process
+        try:
+            m = H.x86_machine()
+            alloc_noise()
+            H.emul_lines(m, [i])
+            res['state'] = [m.dump_id(), m.dump_mem()]
+        except Budget:
+            raise
+        except RecursionError:
+            res['state'] = 'EXC:RecursionError'
+        except Exception as e:
+            res['state'] = 'EXC:' + type(e).__name__
+        return res
     if k == 'emul':
         m = H.x86_machine()
         rendered = []
